@@ -21,12 +21,13 @@ class Registry;
 /* ---- recording contract stubs of the replaced callees ---- */
 static STEPcomplex *g_parts[2]; static int g_part_lookups, g_part_missing_at;
 static int g_reads; static STEPcomplex *g_read_part[2]; static int g_read_id[2], g_read_add[2]; static InstMgrBase *g_read_set[2];
-static int g_err_calls, g_clear_calls;
+static int g_err_calls, g_clear_calls; static Severity g_part_sev;
 static STEPcomplex *verif_EntityPart(STEPcomplex *, const char *, const char *) { int k = g_part_lookups++; return (k < 2 && k != g_part_missing_at) ? g_parts[k] : 0; }
-static Severity verif_part_STEPread(STEPcomplex *p, int id, int add, InstMgrBase *set, istream &in, const char *)
+static bool g_read_strict[2], g_read_techcor[2];
+static Severity verif_part_STEPread(STEPcomplex *p, int id, int add, InstMgrBase *set, istream &in, const char *, bool techcor = true, bool strict = true)
 {   /* a part reader consumes the parenthesised value list of its part */
-    if (g_reads < 2) { g_read_part[g_reads] = p; g_read_id[g_reads] = id; g_read_add[g_reads] = add; g_read_set[g_reads] = set; }
-    g_reads++; in.get(); in.get(); return SEVERITY_NULL;
+    if (g_reads < 2) { g_read_part[g_reads] = p; g_read_id[g_reads] = id; g_read_add[g_reads] = add; g_read_set[g_reads] = set; g_read_strict[g_reads] = strict; g_read_techcor[g_reads] = techcor; }
+    g_reads++; in.get(); in.get(); p->_error.severity(g_part_sev); return g_part_sev;      /* contract: the part's own descriptor holds what went wrong in it */
 }
 static void verif_STEPread_error(STEPcomplex *, char, int, istream &, const char *) { g_err_calls++; }
 static void verif_ClearError(STEPcomplex *, int) { g_clear_calls++; }
@@ -39,24 +40,31 @@ const char *ReadStdKeyword(istream &in, std::string &buf, int) { int c = in.peek
  * for the references inside it, against the same instance set; C03: a part that the complex type does not have is an input error */
 extern "C" void h_complex_STEPread()
 {
-    IN(int, in_id); IN(int, in_add); IN(int, in_nparts); IN(int, in_missing);
+    IN(int, in_id); IN(int, in_add); IN(int, in_nparts); IN(int, in_missing); IN(int, in_partsev); IN(int, in_strict); IN(int, in_techcor);
     __CPROVER_assume(in_id >= 0 && in_add >= 0 && in_nparts >= 0 && in_nparts <= 2 && in_missing >= -1 && in_missing <= 1);
     const char *txt = in_nparts == 0 ? "()" : in_nparts == 1 ? "(A())" : "(A()B())";
     g_stream_arbitrary = 0; int n = 0; while (txt[n]) { g_stream_script[n] = txt[n]; n++; } g_stream_len = n;
     istream in; in._m_state = 0; in._m_have = 0; in._m_consumed = 0;
     STEPcomplex *sc = (STEPcomplex *)malloc(sizeof(STEPcomplex)); sc->head = 0; sc->sc = 0;
     sc->_error._userMsg._n = 0; sc->_error._userMsg._m[0] = 0; sc->_error._detailMsg._n = 0; sc->_error._detailMsg._m[0] = 0; sc->_error._severity = SEVERITY_NULL;
-    for (int i = 0; i < 2; i++) g_parts[i] = (STEPcomplex *)malloc(sizeof(STEPcomplex));
+    __CPROVER_assume(in_partsev == SEVERITY_NULL || in_partsev == SEVERITY_USERMSG || in_partsev == SEVERITY_INCOMPLETE || in_partsev == SEVERITY_WARNING || in_partsev == SEVERITY_INPUT_ERROR);
+    g_part_sev = (Severity)in_partsev;
+    for (int i = 0; i < 2; i++) { g_parts[i] = (STEPcomplex *)malloc(sizeof(STEPcomplex)); g_parts[i]->_error._userMsg._n = 0; g_parts[i]->_error._userMsg._m[0] = 0; g_parts[i]->_error._detailMsg._n = 0; g_parts[i]->_error._detailMsg._m[0] = 0; g_parts[i]->_error._severity = SEVERITY_NULL; }
     InstMgrBase *set = (InstMgrBase *)malloc(8);
     g_part_lookups = g_reads = g_err_calls = g_clear_calls = 0; g_part_missing_at = in_missing;
-    Severity s = sc->STEPcomplex::STEPread(in_id, in_add, set, in, 0, true, true);
+    Severity s = sc->STEPcomplex::STEPread(in_id, in_add, set, in, 0, in_techcor != 0, in_strict != 0);
     __CPROVER_assert(sc->STEPfile_id == in_id, "C14 a complex instance takes the id it is given (the shifted one)");
     int expected = (in_missing >= 0 && in_missing < in_nparts) ? in_missing : in_nparts;
     __CPROVER_assert(g_reads == expected, "every part up to the first unknown one is read once");
     for (int i = 0; i < 2; i++) if (i < g_reads) {
         __CPROVER_assert(g_read_part[i] == g_parts[i], "parts are read in file order into the part found for their keyword");
+        __CPROVER_assert(g_read_strict[i] == (in_strict != 0) && g_read_techcor[i] == (in_techcor != 0), "C15 the strict / lenient setting (and the encoding switch) reach every part of a complex instance unchanged");
         __CPROVER_assert(g_read_id[i] == in_id && g_read_add[i] == in_add && g_read_set[i] == set, "C14 every part of a complex instance is read with the instance's id, the same id offset for its references, and the same instance set");
     }
     if (in_missing >= 0 && in_missing < in_nparts) __CPROVER_assert(s <= SEVERITY_INPUT_ERROR && g_err_calls == 1, "C03 a part that the complex entity does not have is an input error");
-    else __CPROVER_assert(s == SEVERITY_NULL && in._m_consumed == (unsigned long)n, "a well-formed complex instance is read without error up to and including its closing parenthesis");
+    else {
+        __CPROVER_assert(in._m_consumed == (unsigned long)n, "a well-formed complex instance is read up to and including its closing parenthesis");
+        if (in_nparts == 0) __CPROVER_assert(s == SEVERITY_NULL, "no parts, no error");
+        else __CPROVER_assert(s == (Severity)in_partsev, "C03 what went wrong inside a part of a complex instance is reported for the complex instance (its severity is the worst severity of its parts)");
+    }
 }
